@@ -85,7 +85,10 @@ func stressRun(args []string) int {
 	for run := 0; run < *n; run++ {
 		mode := run % 3
 		k := 1 + (run/3)%3
-		q := quartz.NewJobQueue()
+		var q quartz.JobQueue = quartz.NewJobQueue()
+		if run%2 == 0 { // a slow (contract-abiding) queue widens the window between the loop's Pop and Push
+			q = &slowQ{JobQueue: q}
+		}
 		lk := &sync.Mutex{}
 		var scheds []quartz.Scheduler
 		ctx, cancel := context.WithCancel(context.Background())
@@ -126,6 +129,17 @@ func stressRun(args []string) int {
 			s := scheds[r.Intn(k)]
 			key := dets[j].JobKey()
 			kind := []string{"pause", "pause", "resume", "resume", "delete", "schedule"}[r.Intn(6)]
+			if r.Intn(25) == 0 { // Clear affects every job
+				inv := quartz.NowNano()
+				err := s.Clear()
+				ret := quartz.NowNano()
+				for jj := 0; jj < J; jj++ {
+					events[jj] = append(events[jj], apiEvent{"delete", inv, ret, err == nil})
+				}
+				dist["events"]["clear:"+b01(err == nil)]++
+				time.Sleep(time.Duration(r.Intn(3000)) * time.Microsecond)
+				continue
+			}
 			inv := quartz.NowNano()
 			var err error
 			switch kind {
